@@ -414,6 +414,10 @@ def main(argv):
     reproduced = {}
     for of in oracle_fails:
         sig = (of.get('case') or {}).get('sig')
+        if sig and re.match(r'^C\d\d:', sig) and not sig.startswith(prop + ':'):
+            # a failure classified under another property (shared scenario family): that property's check reports it
+            cov['foreign_oracle_failures'] = cov.get('foreign_oracle_failures', 0) + 1
+            continue
         k = is_known(sig)
         if k:
             reproduced[k['id']] = k; continue
